@@ -7,6 +7,7 @@ PRELUDE = '''#![allow(dead_code, unused_imports, non_camel_case_types, non_snake
 #![deny(warnings)]
 #![allow(dead_code, unused_imports, non_camel_case_types, non_snake_case, non_upper_case_globals)]
 use derive_ex::{derive_ex, Ex};
+#[allow(unused_imports)] use helpers::{_eq, _f};
 mod helpers {
     use ::core::cmp::Ordering;
     use ::core::hash::{Hash, Hasher};
@@ -18,6 +19,9 @@ mod helpers {
     pub fn fp<T: PartialOrd + ?Sized>(a: &T, b: &T) -> Option<Ordering> { a.partial_cmp(b) }
     pub fn fh<T: Hash + ?Sized, H: Hasher>(a: &T, h: &mut H) { a.hash(h) }
     pub fn ksz<T: ?Sized>(_: &T) -> u8 { 0 }
+    /// user functions called like locals the expansion has (had) of its own: imported unqualified where key expressions use them
+    pub fn _eq<T: ?Sized>(_: &T) -> u8 { 0 }
+    pub fn _f<T: ?Sized>(_: &T) -> u8 { 0 }
     pub const K: i8 = 7;
     pub trait Mk { fn mk() -> Self; }
     impl Mk for i8 { fn mk() -> Self { 5 } }
@@ -227,7 +231,7 @@ def gen_item(rng, names=None, want_enum=None, allow_attrs=True, plain=False, abs
             elif r < 0.18 and ('PartialOrd' in traits):
                 out.append('#[ord(reverse)]')
             elif r < 0.30:
-                out.append('#[ord(key = helpers::ksz(&$))]')
+                out.append(rng.choice(['#[ord(key = helpers::ksz(&$))]', '#[ord(key = helpers::ksz(&$))]', '#[ord(key = _eq(&$))]', '#[ord(key = _f(&$))]']))
             elif r < 0.45:
                 # `by` on first / middle / last fields, also on fields of generic type (with an explicit bound)
                 b = ', bound(..)' if rng.random() < 0.3 else ''
@@ -378,7 +382,7 @@ def gen_seq_case(seed, idx):
 
 
 # ---------------------------------------------------------------- C13: hostile names and scopes
-HOSTILE_TYPE_PARAMS = ['H', 'T', 'Eq', 'Fn', 'Self_', 'Rhs', 'Output', 'Target', 'Formatter', 'Hasher', 'Ordering', 'Option', 'r#type']
+HOSTILE_TYPE_PARAMS = ['H', 'T', 'Eq', 'Fn', 'Self_', 'Rhs', 'Output', 'Target', 'Formatter', 'Hasher', 'Ordering', 'Option', 'r#type', 'usize', 'bool', '__T_']
 HOSTILE_CONST_PARAMS = ['N', 'H', 'T', 'LEN', 'r#N']
 # names the expansion uses for its own locals / parameters / closures
 EXPANSION_LOCALS = ['f', 'state', 'this', 'other', 'rhs', 'source', 'lhs', 'o', 'to_index', 'l_0', 'r_0', '_0', '_self_0',
@@ -399,6 +403,7 @@ mod shadow {
     pub trait Eq {} pub trait Fn {} pub trait Ord {} pub trait PartialEq {} pub trait PartialOrd {} pub trait Hash {}
     pub trait Clone {} pub trait Copy {} pub trait Default {} pub trait Debug {} pub trait Sized {} pub trait Into {} pub trait Hasher {}
     pub struct Ordering; pub struct Formatter; pub enum Result { A } pub enum Option_ { A }
+    pub type bool = u8; pub type isize = i64;
     pub fn drop() {}
     pub mod core {} pub mod std {}
 }
@@ -451,6 +456,10 @@ def gen_c13_case(seed, idx):
         src = it['src']
         if not it['params_all_used']:
             continue
+        if 'usize' in tp and 'const ' in src:
+            continue     # (the generator itself writes `const N: usize`)
+        if cn in ('_eq', '_f') and (cn + '(&$)') in src:
+            continue     # (the item's own const parameter would hide the key function of that name)
         pre = PRELUDE
         if scope == 'no_std':
             if '::std::' in src:
@@ -458,10 +467,10 @@ def gen_c13_case(seed, idx):
             pre = '#![no_std]\n' + PRELUDE
         if scope == 'hijack':
             # `by` / `key` helper functions of the prelude are written in method syntax themselves: keep them out of the scope
-            body = f'mod case {{\n#[allow(unused_imports)] use super::Hijack;\nuse super::helpers;\nuse derive_ex::{{derive_ex, Ex}};\n{src}\n}}\n'
+            body = f'mod case {{\n#[allow(unused_imports)] use super::Hijack;\nuse super::helpers;\n#[allow(unused_imports)] use super::helpers::{{_eq, _f}};\nuse derive_ex::{{derive_ex, Ex}};\n{src}\n}}\n'
             full = pre + HIJACK + body
         elif scope == 'shadow':
-            body = f'mod case {{\n#[allow(unused_imports)] use super::shadow::*;\nuse super::helpers;\nuse derive_ex::{{derive_ex, Ex}};\n{src}\n}}\n'
+            body = f'mod case {{\n#[allow(unused_imports)] use super::shadow::*;\nuse super::helpers;\n#[allow(unused_imports)] use super::helpers::{{_eq, _f}};\nuse derive_ex::{{derive_ex, Ex}};\n{src}\n}}\n'
             full = pre + SHADOW + body
         else:
             full = pre + src + '\n'
